@@ -205,6 +205,13 @@ RunGreedy(m) == IF m.pc = "greedy" THEN RunGreedy(StepDet(m)) ELSE m
 RECURSIVE RunBfs(_)
 RunBfs(m) == IF m.pc = "bfs" THEN RunBfs(StepDet(m)) ELSE m
 
+(* deterministic completion of the model from a state: always the smallest unmatched root *)
+RECURSIVE Finish(_)
+Finish(mm) ==
+  IF mm.pc = "done" THEN mm
+  ELSE IF Kind(mm) = "Pick" THEN Finish(DoPick(mm, MinOf(mm.un)))
+  ELSE Finish(StepDet(mm))
+
 (* ------------------------------------------------------------------------ *)
 (* clauses (pure, so that TraceMatch can evaluate them on its own states)    *)
 (* ------------------------------------------------------------------------ *)
